@@ -315,6 +315,11 @@ var currencyUnits = map[string]*big.Rat{
 // ParseCurrency parses s as a Currency value. The format of s should match one
 // of the representations provided by (Currency).Format.
 func ParseCurrency(s string) (Currency, error) {
+	// no representation of a Currency is anywhere near this long; parsing cost
+	// grows faster than linearly with the number of digits
+	if len(s) > 1024 {
+		return ZeroCurrency, errors.New("number too long")
+	}
 	i := strings.LastIndexAny(s, "0123456789.") + 1
 	if i == 0 {
 		return ZeroCurrency, errors.New("not a number")
@@ -322,6 +327,11 @@ func ParseCurrency(s string) (Currency, error) {
 	n, unit := s[:i], strings.TrimSpace(s[i:])
 	if unit == "" || unit == "H" {
 		return parseHastings(n)
+	}
+	// the numeric part is a plain decimal; in particular big.Rat's exponent
+	// forms ("1e1000000", "1p1000000") would be expanded in full below
+	if strings.ContainsAny(n, "eEpP") {
+		return ZeroCurrency, errors.New("not a number")
 	}
 	// parse numeric part as a big.Rat
 	r, ok := new(big.Rat).SetString(n)
